@@ -28,7 +28,8 @@ func TestVerifC10RealGeoIP(tt *testing.T) {
 		"rapid: real geoip.File on the test MMDBs + ECS cache in the full stack; 1-2 profiles with allowed/blocked ASNs (the clients' real ASNs and their countries' top ASNs) and subnets around the known addresses; histories of 2-6 requests mixing anonymous and profile clients from the same address / same /24 or /56 block / other blocks, some naming a known block in an ECS option, then optionally a concurrent batch from one block; reference location from fresh database instances asked one Data() question each; non-trivial = an ASN entry decides the verdict of a request judged after an earlier request of the same block went through the cache; distinct by (client, profile access config, verdict, earlier requests of the block)",
 		"judged-after-cache-lookup-same-block", "asn-rule-decides", "asn-rule-decides-after-cache-lookup",
 		"verdict-would-differ-with-country-top-asn", "profile-after-anonymous-same-block", "ecs-named-client-block-earlier",
-		"blocked-by-asn", "allowed-asn-overrides", "concurrent-same-block")
+		"blocked-by-asn", "allowed-asn-overrides", "concurrent-same-block",
+		"colliding-v4-v6-pair-both-orders", "colliding-pair-v4-after-v6", "colliding-pair-v6-after-v4", "colliding-pair-asn-rule-decides")
 	st.Finish(tt)
 
 	w := vfsRealWorldNew(tt)
@@ -42,6 +43,10 @@ func TestVerifC10RealGeoIP(tt *testing.T) {
 		// earlier in this history ("client" / "ecs" / "anon-client").
 		touched := map[int][]string{}
 		var used []int
+
+		// looked[block]: the database was asked about the block (as a client's
+		// or as an ECS option's), whatever became of the request.
+		looked := map[int]bool{}
 
 		judge := func(r *vfsRequest, bi int, tr *vfsTrace, mode string) {
 			loc := w.Loc(r.Client)
@@ -115,6 +120,26 @@ func TestVerifC10RealGeoIP(tt *testing.T) {
 
 			if mode != "" {
 				classes = append(classes, "concurrent-same-block")
+			}
+
+			// The constructed block of the other family with the same leading
+			// octets was looked up first, and its location is another one.
+			if p, has := w.Partner[bi]; has && looked[p] && !vfsLocEq(w.Loc(w.Blocks[p][0]), loc) {
+				classes = append(classes, "colliding-v4-v6-pair-both-orders")
+				if r.Client.Is4() {
+					classes = append(classes, "colliding-pair-v4-after-v6")
+				} else {
+					classes = append(classes, "colliding-pair-v6-after-v4")
+				}
+
+				if decides {
+					classes = append(classes, "colliding-pair-asn-rule-decides")
+				}
+			}
+
+			looked[bi] = true
+			if ei := vfsRealECSBlock(w, r); ei >= 0 {
+				looked[ei] = true
 			}
 
 			// An answered request (whatever the reference says) went through
